@@ -60,7 +60,7 @@ struct Conn
    uint64_t cmdsSent = 0, cmdsProcessed = 0; std::vector<uint64_t> cmdEndOffsets; uint64_t bytesQueuedTotal = 0;   // for "no partially received command is processed"
    // server-side model (as of the last processed command)
    std::map<std::string, Sub> serverSubs;
-   std::vector<std::string> defaultRoute; bool hasDefaultRoute = false;
+   std::vector<std::string> defaultRoute; std::vector<Filt> defaultRouteFilts; bool hasDefaultRoute = false;
    // client-side model (as of the last marker the client has read)
    std::map<std::string, Sub> clientSubs; std::map<int, PendingSubOp> pending;
    std::map<std::string, std::string> mirror;               // path -> payload bytes
@@ -85,6 +85,18 @@ public:
    DataNode & Root() const {return GetGlobalRoot();}
    void QueueMarker(int opid) {MessageRef mk = GetMessageFromPool(MARKER_WHAT); (void) mk()->AddInt32(kOpIdField, opid); (void) AddOutgoingMessage(mk);}
    uint32 OutQueueLen() {AbstractMessageIOGateway * g = GetGateway()(); return g ? g->GetOutgoingMessageQueue().GetNumItems() : 0;}
+   // server-side subtree operations that StorageReflectSession offers to subclasses (the property's "subtree clones/restores"); updates are pushed as after a command
+   status_t DoClone(const String & srcRel, const String & dstRel, SetDataNodeFlags flags)
+   {
+      DataNode * n = GetDataNode(srcRel); if (n == NULL) return B_DATA_NOT_FOUND;
+      const status_t r = CloneDataNodeSubtree(*n, dstRel, flags); PushSubscriptionMessages(); return r;
+   }
+   status_t DoSaveRestore(const String & srcRel, const String & dstRel, SetDataNodeFlags flags)
+   {
+      DataNode * n = GetDataNode(srcRel); if (n == NULL) return B_DATA_NOT_FOUND;
+      Message saved; MRETURN_ON_ERROR(SaveNodeTreeToMessage(saved, n, GetEmptyString(), true));
+      const status_t r = RestoreNodeTreeFromMessage(saved, dstRel, true, flags); PushSubscriptionMessages(); return r;
+   }
    // public access to the traversal entry points, for the "traversal == brute force" clause of C05
    void FindNodes(const String & pattern, Queue<DataNodeRef> & out) const {(void) FindMatchingNodes(pattern, ConstQueryFilterRef(), out, MUSCLE_NO_LIMIT);}
 private:
@@ -110,6 +122,7 @@ public:
    std::vector<std::string> departedRoots;    // roots of sessions that have left (must never reappear)
    int hostileConn = -1; int witnessConn = -1; int witnessPingTag = 0; int64_t witnessPingSentAtStep = -1; int witnessOutstanding = -1;
    bool inQuiesce = false;
+   bool skipReplicaCompare = false;   // C13 runs that remove indexed children QUIETLY: replicas legitimately go stale, only the server-side index invariants are checked
    bool recordContent = false; std::vector<std::string> contentLog;   // C10's history-independence differential: everything the clients were sent, in order
    static ServerSim * s_cur;
 
@@ -285,7 +298,9 @@ public:
                c->serverSubs[fn.substr(10)] = s;
             }
             else if (fn == PR_NAME_REFLECT_TO_SELF) c->self = true;
-            else if (fn == PR_NAME_KEYS) {c->defaultRoute.clear(); const String * s; for (uint32 i=0; m.FindString(PR_NAME_KEYS, i, &s).IsOK(); i++) c->defaultRoute.push_back(s->Cstr()); c->hasDefaultRoute = true;}
+            else if (fn == PR_NAME_KEYS) {c->defaultRoute.clear(); const String * s; for (uint32 i=0; m.FindString(PR_NAME_KEYS, i, &s).IsOK(); i++) c->defaultRoute.push_back(s->Cstr()); c->hasDefaultRoute = true;
+                                          if (!m.HasName(PR_NAME_FILTERS)) {/* a stored filter list, if any, stays in force for the new keys (parameters are independent) */}}
+            else if (fn == PR_NAME_FILTERS) {c->defaultRouteFilts.clear(); MessageRef fm; for (uint32 i=0; m.FindMessage(PR_NAME_FILTERS, i, fm).IsOK(); i++) c->defaultRouteFilts.push_back(FiltFromArchive(fm));}
          }
       }
       else if (m.what == PR_COMMAND_REMOVEPARAMETERS)
@@ -298,6 +313,7 @@ public:
             else if (key.compare(0, 10, "SUBSCRIBE:") == 0) c->serverSubs.erase(Unescape(key.substr(10)));
             else if (key == PR_NAME_REFLECT_TO_SELF) c->self = false;
             else if (key == "\\!SnKy") {c->hasDefaultRoute = false; c->defaultRoute.clear();}
+            else if (key == "\\!SnFl") c->defaultRouteFilts.clear();
          }
       }
    }
@@ -372,12 +388,12 @@ public:
                   const uint32 pos = (uint32) atol(op.substr(1, colon-1).c_str()); const std::string name = op.substr(colon+1);
                   if (op[0] == INDEX_OP_ENTRYINSERTED)
                   {
-                     if ((orc.index)&&(pos > L.size())) Fail("index_insert_out_of_range", "client " + I(c->idx) + " index log for " + path + ": insert '" + op + "' but replica has " + U(L.size()) + " entries");
+                     if ((orc.index)&&(!skipReplicaCompare)&&(pos > L.size())) Fail("index_insert_out_of_range", "client " + I(c->idx) + " index log for " + path + ": insert '" + op + "' but replica has " + U(L.size()) + " entries");
                      L.insert(L.begin()+std::min((size_t) pos, L.size()), name);
                   }
                   else if (op[0] == INDEX_OP_ENTRYREMOVED)
                   {
-                     if (orc.index)
+                     if ((orc.index)&&(!skipReplicaCompare))
                      {
                         if (pos >= L.size()) Fail("index_remove_out_of_range", "client " + I(c->idx) + " index log for " + path + ": remove '" + op + "' but replica has " + U(L.size()) + " entries");
                         if (L[pos] != name) Fail("index_remove_wrong_name", "client " + I(c->idx) + " index log for " + path + ": remove '" + op + "' but replica holds '" + L[pos] + "' at that position");
@@ -542,6 +558,7 @@ public:
       for (uint32 i=0; msg()->FindString(PR_NAME_KEYS, i, &s).IsOK(); i++) keys.push_back(s->Cstr());
       const bool hasKeys = msg()->HasName(PR_NAME_KEYS, B_STRING_TYPE);
       std::vector<Filt> filts; {MessageRef fm; for (uint32 i=0; msg()->FindMessage(PR_NAME_FILTERS, i, fm).IsOK(); i++) filts.push_back(FiltFromArchive(fm));}
+      if (!msg()->HasName(PR_NAME_KEYS, B_STRING_TYPE)) filts = c->defaultRouteFilts;   // the default route brings its own stored filters
       const std::vector<std::string> * use = hasKeys ? &keys : (c->hasDefaultRoute ? &c->defaultRoute : NULL);
       std::string kd; if (use) for (auto & k : *use) kd += k + " "; else kd = "<broadcast>";
       ex.keysDesc = kd;
@@ -556,14 +573,14 @@ public:
          // the same key string twice in one Message (with different filters) collapses to one matcher entry in the server: not a well-formed request, no independent verdict
          {std::set<std::string> seen; for (auto & k : *use) if (!seen.insert(match::Normalise(k)).second) {conservative = false; st.inc("p.route_duplicate_keys");}}
          std::set<uint32> byLib, byInd;
-         PathMatcher pm; for (size_t i=0; i<use->size(); i++) {ConstQueryFilterRef qf; if ((hasKeys)&&(i < filts.size())) qf = filts[i].ToMuscle(); (void) pm.PutPathFromString((*use)[i].c_str(), qf, "*/*");}   // same prefix rule as the server (relative keys get the implicit */*/ prefix)
+         PathMatcher pm; for (size_t i=0; i<use->size(); i++) {ConstQueryFilterRef qf; qf = FiltFor(filts, i).ToMuscle(); (void) pm.PutPathFromString((*use)[i].c_str(), qf, "*/*");}   // same prefix rule as the server (relative keys get the implicit */*/ prefix)
          WalkTree(ss->Root(), [&](DataNode & n, const std::string & p) {
             int ownerIdx = -1; uint32 owner = 0; for (auto & cp : conns) if ((cp)&&(cp->up)&&((p == cp->root)||(p.compare(0, cp->root.size()+1, cp->root + "/") == 0))) {ownerIdx = cp->idx; owner = cp->sid;}
             if (ownerIdx < 0) return;
             if ((ownerIdx == c->idx)&&(!c->self)) return;
             ConstMessageRef data = n.GetData();
             if (pm.MatchesPath(p.c_str(), data(), &n)) byLib.insert(owner);
-            if (conservative) for (size_t i=0; i<use->size(); i++) if (match::PathMatch((*use)[i], p)) {const bool fok = ((!hasKeys)||(i >= filts.size())||(filts[i].EvalMsg(data()))); if (fok) byInd.insert(owner);} });
+            if (conservative) for (size_t i=0; i<use->size(); i++) if (match::PathMatch((*use)[i], p)) {const bool fok = FiltFor(filts, i).EvalMsg(data()); if (fok) byInd.insert(owner);} });
          if ((conservative)&&(byLib != byInd))
          {
             std::string d = "keys [" + kd + "]: muscle's per-path matcher selects sessions {"; for (uint32 x : byLib) d += U(x) + " "; d += "} but the independent matcher selects {"; for (uint32 x : byInd) d += U(x) + " "; d += "}";
@@ -577,6 +594,8 @@ public:
       if (ex.expectSids.count(c->sid)) st.inc("p.route_to_self");
    }
    // is the key inside the subset the independent matcher implements?  (alternation only as a whole clause, not nested)
+   // the filter in force for key #i: its own, or -- documented "bleed-down" of PutPathsFromMessage -- the last one specified before it
+   static Filt FiltFor(const std::vector<Filt> & filts, size_t i) {if (i < filts.size()) return filts[i]; return filts.empty() ? Filt() : filts.back();}
    static bool IsConservative(const std::string & k)
    {
       for (char ch : k) if (!(isalnum((unsigned char) ch)||(strchr("*?[]-(|),/", ch)))) return false;
@@ -676,7 +695,7 @@ public:
             st.inc("mirror_checks"); st.inc("mirror_entries_checked", exp.size());
             if (exp.size() > 0) st.inc("p.nonempty_mirror_checked");
          }
-         if (orc.index)
+         if ((orc.index)&&(!skipReplicaCompare))
          {
             for (auto & t : truth)
             {
